@@ -3,6 +3,7 @@ package main
 import (
 	"encoding/json"
 	"fmt"
+	"math/rand"
 	"os"
 	"os/exec"
 	"path/filepath"
@@ -241,6 +242,7 @@ func engineNLPAnalysis(ctx *Ctx) {
 	// texts in the order this process analysed them first (for the comparison with a fresh process at the end)
 	var order []string
 	defer func() { c06CrossProcess(ctx, order, remembered) }()
+	analyse := c06Analyser(ctx, shared, remembered, &order, &ring, r)
 	for i := 0; i < n; i++ {
 		if len(ring) > 50 && r.Intn(4) == 0 {
 			old := ring[r.Intn(len(ring))]
@@ -303,21 +305,60 @@ func engineNLPAnalysis(ctx *Ctx) {
 		if r.Intn(12) == 0 {
 			q = []string{"see ", "reading ", "preview ", "looking at "}[r.Intn(4)] + q + []string{" without opening", " without editing it", " without; opening"}[r.Intn(3)]
 		}
+		analyse(q, i)
+	}
+	c06Closure(ctx, func(q string) []string { return analyse(q, 1<<30) })
+}
+
+// c06Closure: every pair of words the query-analysis package names, as a request of its own, and then the same request with
+// each term the enhancement added typed by the user himself (before and after the pair): the rules that add a term meet a
+// text that already holds it. Dealt over the shards; every text goes through the oracles of the engine.
+func c06Closure(ctx *Ctx, analyse func(q string) []string) {
+	d := ctx.Dict()
+	ws := d.NLPWords
+	k := 0
+	for i, a := range ws {
+		for j, b := range ws {
+			if i == j {
+				continue
+			}
+			k++
+			if k%ctx.NShards != ctx.Shard || (!ctx.Thorough && (i+j)%3 != 0) {
+				continue
+			}
+			q := a + " " + b
+			user := map[string]bool{a: true, b: true}
+			ctx.R.Path("closure-pairs", 1)
+			for _, t := range analyse(q) {
+				if !user[t] && !strings.ContainsAny(t, " \t") {
+					analyse(q + " " + t)
+					analyse(t + " " + q)
+					ctx.R.Path("closure-texts-with-an-added-term-typed-by-the-user", 2)
+				}
+			}
+		}
+	}
+}
+
+func c06Analyser(ctx *Ctx, shared *nlp.QueryProcessor, remembered map[string]string, order, ring *[]string, r *rand.Rand) func(q string, i int) []string {
+	render := c06Render
+	return func(q string, i int) (enhOut []string) {
 		cs := map[string]interface{}{"query": q}
 		ctx.R.Begin(cs)
 		ctx.R.Eval(1)
 		ctx.R.Guard("C06", "ProcessQuery", cs, func() {
 			pq := shared.ProcessQuery(q)
 			enh := pq.GetEnhancedKeywords()
-			if _, ok := remembered[q]; !ok && len(remembered) < 200000 {
+			enhOut = enh
+			if _, ok := remembered[q]; !ok && len(remembered) < 200000 && i < 1<<30 {
 				remembered[q] = render(pq)
-				if len(order) < 6000 && (i%4 == 0 || strings.Contains(q, "without")) {
-					order = append(order, q)
+				if len(*order) < 6000 && (i%4 == 0 || strings.Contains(q, "without")) {
+					*order = append(*order, q)
 				}
-				if len(ring) < 4000 {
-					ring = append(ring, q)
+				if len(*ring) < 4000 {
+					*ring = append(*ring, q)
 				} else {
-					ring[r.Intn(len(ring))] = q
+					(*ring)[r.Intn(len(*ring))] = q
 				}
 			}
 			// repeatable: same processor and a fresh one
@@ -391,6 +432,7 @@ func engineNLPAnalysis(ctx *Ctx) {
 				ctx.R.Sample(map[string]interface{}{"query": q, "keywords": pq.Keywords, "enhanced": enh, "intent": pq.Intent})
 			}
 		})
+		return enhOut
 	}
 }
 
